@@ -22,6 +22,13 @@
    ./main.sy, a path from the parent directory, a path with .., an absolute path), with sylt's own file reader behind a
    counter that counts per FILE (canonical path); Trace_Modules (UNIVERSE=disk) asserts that every configuration occurs
    under all spellings, spelled as the specification says, and judges each record like the in-memory ones.
+3c. Family L (SyltLayers / MC_Layers / Trace_Layers): module order, names handed on by `from` through exporting files
+   (chains of length 1..3 through shapes/exports.sy and kit/exports.sy), every order of the main file's import
+   statements, the same global names (run, start, boot) in every file, printing initialisers in every file, an imported
+   file's own `start` called from the main file's start directly or through other files. The specification decides for
+   every configuration whether it is accepted (a `from` finds a handed-on name only if the exporting file comes earlier
+   in the module order) and what an accepted one prints; c12 runl renders the files (import lines and reference texts are
+   the specification's), compiles and runs them; Trace_Layers re-derives every configuration and judges the record.
 4. Negative controls: corrupted observations (print dropped, status flipped, a file read twice, an unimported file read,
    a twin accepted, the variant rejected) and a stub implementation in which dropped imports stay visible must all be
    rejected by TLC.
@@ -35,12 +42,205 @@ STYLES = ("use", "useas", "from", "fromas")
 FORMS = ("rel-plain", "root-plain", "rel-folder", "root-folder", "bare-root")
 TWIN_KINDS = ("drop-import", "unqualified", "alias-bypass", "wrong-namespace", "unknown-namespace",
               "chain-skip", "chain-reversed", "chain-unknown-hop", "chain-foreign-hop")
-WORKERS = 6
+WORKERS = 4
 # the two file trees (constants of the specification): name -> (MC cfg, trace cfg, number of base programs)
 MODELS = {"A": ("MC_Modules.cfg", "Trace_Modules.cfg", 4), "B": ("MC_ModulesB.cfg", "Trace_ModulesB.cfg", 2)}
 # tree B: where the std module name sits in the paths that name the file
 STD_POS = {"geometry/math.sy": "last-component", "util/list.sy": "last-component", "set/b.sy": "first-folder",
            "sub/dict/c.sy": "inner-folder", "vendor/set/exports.sy": "exports-folder"}
+
+
+LAYERS_NV = {"quick": 2, "thorough": 16}
+
+
+def emit_l(wd, nv, seed, only=None, name="emit-L"):
+    env = {"NV": nv, "SEED": seed}
+    if only:
+        env.update({"ONLY": "1", "ONLY_N": only[0], "ONLY_W": only[1]})
+    r = vlib.tlc("MC_Layers", cfg="MC_Layers.cfg", wd=wd, env=env, tags=("REPLAY", "INFO"), workers=WORKERS, timeout=2400, xmx="8g",
+                 coverage=False, out_file=os.path.join(wd, "tlc-%s.out" % name))
+    vlib.require_tlc_ok(r, "SyltLayers universe (MC_Layers)")
+    info = [c for (t, c) in r.records if t == "INFO"][:1]
+    cases = {}
+    for (t, c) in r.records:
+        if t == "REPLAY":
+            cases[(c["n"], c["w"])] = c
+    cases = [cases[key] for key in sorted(cases)]
+    for c in cases:
+        c["tree"] = "L"
+    if not info or not cases:
+        vlib.tool_error("MC_Layers printed %d info records and %d configurations" % (len(info), len(cases)))
+    if r.distinct != 2 * len(cases):
+        vlib.tool_error("MC_Layers explored %d states but printed %d configurations" % (r.distinct, len(cases)))
+    if not only and len(cases) != nv * info[0]["primaries"]:
+        vlib.tool_error("MC_Layers: %d configurations for %d primaries x %d variants" % (len(cases), info[0]["primaries"], nv))
+    return r, info, cases
+
+
+def record_l(wd, info, cases, name):
+    inf, cf = os.path.join(wd, name + "-info.ndjson"), os.path.join(wd, name + "-cases.ndjson")
+    tf, ff = os.path.join(wd, name + "-trace.ndjson"), os.path.join(wd, name + "-full.ndjson")
+    vlib.write_ndjson(inf, info)
+    vlib.write_ndjson(cf, cases)
+    vlib.harness("c12", ["runl", inf, cf, tf, ff])
+    return tf, ff
+
+
+def validate_l(wd, name, trace, universe, nv, seed, nrec):
+    r = vlib.tlc("Trace_Layers", cfg="Trace_Layers.cfg", wd=wd, workers=WORKERS, timeout=3000, xmx="8g",
+                 env={"TRACE": trace, "UNIVERSE": universe, "NV": nv, "SEED": seed}, tags=("REJECT",), coverage=False,
+                 out_file=os.path.join(wd, "tlc-%s.out" % name))
+    vlib.require_tlc_ok(r, "Trace_Layers/" + name)
+    if r.distinct != 2 * nrec:
+        vlib.tool_error("%s: TLC validated %d states for %d records" % (name, r.distinct, nrec))
+    return r, {p["rec"]: sorted(p["whys"]) for (_, p) in r.records}
+
+
+def signature_l(case, why):
+    return "C12|%s|family=layers|chain=%d|consumer=%s|last-hop=%s|spec=%s|boots=%d|own-start-called=%d" % (
+        why, case["len"], case["cons"].replace(".sy", ""), case["last"], "accepted" if case["accepted"] else "rejected",
+        case["boots"], case["startdep"])
+
+
+def describe_l(case, full, why):
+    return "%s (layers n=%d w=%d: chain of %d, consumer %s, last hop %s, module order %s): specification %s %s; compile=%s %s prints=%s status=%s" % (
+        why, case["n"], case["w"], case["len"], case["cons"], case["last"], ">".join(case["load"]),
+        "accepts, prints" if case["accepted"] else "rejects", case["expect"]["prints"], full["class"], full["error"][:120],
+        full["prints"], full["status"])
+
+
+def replay_obj_l(case, full):
+    return {"family": "L", "tree": "L", "n": case["n"], "w": case["w"], "program": "layers",
+            "expected": {"class": case["expect"]["class"], "prints": case["expect"]["prints"], "status": case["expect"]["status"],
+                         "load": case["load"]},
+            "files": full["files"], "observed": {k: full[k] for k in ("class", "error", "prints", "status", "reads")},
+            "case": {k: v for k, v in case.items() if k != "files"}}
+
+
+def judge_l(cases, fulls, rejects, verdicts):
+    for rec, whys in sorted(rejects.items()):
+        case, full = cases[rec - 1], fulls[rec - 1]
+        for why in whys:
+            verdicts.add(signature_l(case, why), describe_l(case, full, why), replay_obj_l(case, full))
+
+
+def vacuity_l(cases, recs, rejects, conforming_only):
+    """family L: every shape of the universe occurs (in configurations that conformed)"""
+    cnt = {}
+
+    def bump(key):
+        cnt[key] = cnt.get(key, 0) + 1
+    for i, c in enumerate(cases):
+        if conforming_only and (i + 1) in rejects:
+            continue
+        acc = "accepted" if c["accepted"] else "rejected"
+        bump("L:" + acc)
+        bump("L:chain%d/%s/%s" % (c["len"], c["last"], acc))
+        bump("L:consumer:%s/%s" % (c["cons"], acc))
+        if c["accepted"]:
+            if c["nhops"] >= 1 and c["last"] == "from":
+                bump("L:handed-on-name-through-from/chain%d" % c["len"])
+            if c["len"] >= 2 and c["last"] == "ns":
+                bump("L:handed-on-name-through-namespace")
+            for key in ("boots", "startdep", "extras", "cycle", "gofrom", "rev", "a1", "a2"):
+                if c[key]:
+                    bump("L:" + key)
+            if c["boots"] and len(c["load"]) >= 5 and c["nmain"] >= 3:
+                bump("L:boots-in-5-files-main-with-3-imports")
+            if c["startdep"] and c["em"] == 2:
+                bump("L:own-start-called-through-another-file")
+            if c["startdep"] and c["em"] != 2:
+                bump("L:own-start-called-from-main-start")
+            bump("L:smode%d" % c["smode"])
+            bump("L:main-imports:%d" % min(c["nmain"], 4))
+            if c["multi"] >= 1:
+                bump("L:other-file-with-several-imports")
+            bump("L:layout:" + c["layout"])
+        elif c["cons"] == "report.sy":
+            bump("L:rejected-only-because-of-module-order")
+    need = ["L:accepted", "L:rejected", "L:rejected-only-because-of-module-order", "L:handed-on-name-through-namespace",
+            "L:handed-on-name-through-from/chain2", "L:handed-on-name-through-from/chain3",
+            "L:boots", "L:startdep", "L:extras", "L:cycle", "L:gofrom", "L:rev", "L:a1", "L:a2",
+            "L:boots-in-5-files-main-with-3-imports", "L:own-start-called-through-another-file", "L:own-start-called-from-main-start",
+            "L:other-file-with-several-imports"] + \
+           ["L:smode%d" % k for k in range(4)] + ["L:main-imports:%d" % k for k in (1, 2, 3, 4)] + \
+           ["L:layout:" + l for l in ("plain", "paren", "multi")] + \
+           ["L:chain%d/%s/accepted" % (n, l) for n in (1, 2, 3) for l in ("from", "ns")] + \
+           ["L:chain%d/%s/rejected" % (n, l) for n in (2, 3) for l in ("from",)] + ["L:chain3/ns/rejected"] + \
+           ["L:consumer:%s/%s" % (f, a) for f in ("main.sy", "report.sy") for a in ("accepted", "rejected")]
+    missing = [k for k in need if cnt.get(k, 0) == 0]
+    if missing:
+        vlib.tool_error("vacuity (family L): never exercised in %s configuration: %s" % (
+            "a conforming" if conforming_only else "any", ", ".join(missing)))
+    return cnt
+
+
+def controls_l(wd, recs, cases, rejects, nv, seed):
+    """corrupted observations of conforming L records: TLC must reject exactly those, for the expected reason"""
+    good = [i for i in range(len(recs)) if (i + 1) not in rejects]
+    acc = [i for i in good if cases[i]["accepted"]]
+    out, want = [], {}
+
+    def add(i, x, w):
+        out.append(x)
+        want[len(out)] = [w]
+    def copy(i):
+        return json.loads(json.dumps(recs[i]))
+    for n, i in enumerate(acc[::max(1, len(acc) // 24)][:24]):
+        x = copy(i)
+        if n % 4 == 0:
+            x["prints"] = x["prints"][:-1]
+            add(i, x, "prints-differ")
+        elif n % 4 == 1:
+            x["class"], x["errkind"], x["prints"], x["status"] = "err", "compile", [], "none"
+            add(i, x, "variant-err")
+        elif n % 4 == 2:
+            [r for r in x["reads"] if r["path"] == cases[i]["load"][-1]][0]["n"] = 2
+            add(i, x, "file-read-twice")
+        else:
+            x["status"] = "assert_failed"
+            add(i, x, "status-differs")
+    # two sibling initialisers in the other order (another module order)
+    for i in [i for i in acc if cases[i]["boots"] and len(cases[i]["load"]) >= 3][:8]:
+        x = copy(i)
+        x["prints"][1], x["prints"][2] = x["prints"][2], x["prints"][1]
+        add(i, x, "prints-differ")
+    # another file's start ran instead of the main file's
+    for i in [i for i in acc if cases[i]["startdep"]][:8]:
+        x = copy(i)
+        x["prints"] = [p for p in x["prints"] if p.endswith(" boot")] + ["engine start", "engine run"]
+        add(i, x, "prints-differ")
+    # a configuration the specification rejects was accepted
+    for i in [i for i in good if not cases[i]["accepted"]][:8]:
+        x = copy(i)
+        x["class"], x["errkind"], x["prints"], x["status"] = "ok", "", ["main start"], "done"
+        add(i, x, "late-export-accepted")
+    path = os.path.join(wd, "neg-L.ndjson")
+    vlib.write_ndjson(path, out)
+    _, got = validate_l(wd, "neg-L", path, "part", nv, seed, len(out))
+    if got != want or len({w[0] for w in want.values()}) < 5:
+        bad = [k for k in want if got.get(k) != want[k]]
+        vlib.tool_error("negative control accepted (family L): %d of %d corrupted observations were not rejected as expected (e.g. record %s: want %s got %s)" % (
+            len(bad), len(want), bad[:1], [want[b] for b in bad[:1]], [got.get(b) for b in bad[:1]]))
+    return len(want)
+
+
+def layers_phase(wd, tier, seed, verdicts):
+    nv = LAYERS_NV[tier]
+    r, info, cases = emit_l(wd, nv, seed)
+    tf, ff = record_l(wd, info, cases, "cross-L")
+    recs, fulls = vlib.read_ndjson(tf), vlib.read_ndjson(ff)
+    if len(recs) != len(cases):
+        vlib.tool_error("harness recorded %d of %d L configurations" % (len(recs), len(cases)))
+    v, rejects = validate_l(wd, "cross-L", tf, "cross", nv, seed, len(recs))
+    before = len(verdicts.violations)
+    judge_l(cases, fulls, rejects, verdicts)
+    vacuity_l(cases, recs, rejects, False)
+    cnt = vacuity_l(cases, recs, rejects, len(verdicts.violations) == before)
+    nconf = len(cases) - len(rejects)
+    n_ctl = controls_l(wd, recs, cases, rejects, nv, seed) if (not rejects or nconf >= 200) else 0
+    return {"r": r, "v": v, "info": info[0], "cases": cases, "recs": recs, "fulls": fulls, "rejects": rejects, "cnt": cnt,
+            "controls": n_ctl, "nv": nv}
 
 
 def cid(c):
@@ -313,6 +513,12 @@ def sample_of(case, full):
             "twins": [{"kind": t["kind"], "file": t["file"], "item": t["item"], "result": t["class"]} for t in full["twins"]]}
 
 
+def sample_l(case, full):
+    return {"tree": "L", "program": "layers", "n": case["n"], "w": case["w"], "files": full["files"], "module_order": case["load"],
+            "specification": case["expect"], "prints": full["prints"], "status": full["status"], "compile": full["class"],
+            "reads": {r["path"]: r["n"] for r in full["reads"]}}
+
+
 def run(ctx):
     tier = ctx.tier
     wd = vlib.workdir(PID)
@@ -324,6 +530,23 @@ def run(ctx):
 
     if ctx.replay:
         rp = json.load(open(ctx.replay))["replay"]
+        if rp.get("family") == "L":
+            r, info, cases = emit_l(wd, 1, 0, only=(rp["n"], rp["w"]), name="replay-emit-L")
+            tf, ff = record_l(wd, info, cases, "replay-L")
+            fulls = vlib.read_ndjson(ff)
+            v, rejects = validate_l(wd, "replay-L", tf, "part", 1, 0, len(cases))
+            for path, text in fulls[0]["files"].items():
+                print("----- %s\n%s" % (path, text))
+            print("module order: %s" % " > ".join(cases[0]["load"]))
+            print("expected: %s" % json.dumps(cases[0]["expect"]))
+            print("observed: %s" % json.dumps({k: fulls[0][k] for k in ("class", "error", "prints", "status")}))
+            judge_l(cases, fulls, rejects, verdicts)
+            ev.set(states=r.distinct + v.distinct, transitions=r.generated + v.generated, traces_validated_against_impl=1,
+                   samples=[sample_l(cases[0], fulls[0])])
+            rc = verdicts.finish()
+            ev.violations = len(verdicts.violations)
+            ev.write()
+            return rc
         model = rp.get("tree", "A")
         r, progs, cases = emit(wd, 1, 0, model, only=(rp["p"], rp["m"], rp["v"]), name="replay-emit")
         if rp.get("spelling"):      # a disk record: the configuration again under every spelling of the main file
@@ -407,6 +630,17 @@ def run(ctx):
         n_a = corrupt_controls(wd, ma["recs"], ma["cases"], ma["rejects"], nv, seed, "A")
         n_b = stub_control(wd, ma["progs"], ma["cases"], ma["rejects"], nv, seed, "A")
 
+    # 3c. family L
+    L = layers_phase(wd, tier, seed, verdicts)
+    states += L["r"].distinct + L["v"].distinct
+    transitions += L["r"].generated + L["v"].generated
+    t_emit += L["r"].wall_s
+    t_val += L["v"].wall_s
+    l_ok = [i for i, c in enumerate(L["cases"]) if (i + 1) not in L["rejects"]]
+    l_pick = [i for i in l_ok if L["cases"][i]["accepted"] and L["cases"][i]["len"] == 3 and L["cases"][i]["last"] == "from"][:1] + \
+             [i for i in l_ok if L["cases"][i]["accepted"] and L["cases"][i]["startdep"] and L["cases"][i]["boots"]][:1] + \
+             [i for i in l_ok if not L["cases"][i]["accepted"] and L["cases"][i]["cons"] == "report.sy"][:1]
+
     ntwins = sum(len(c["twins"]) for c in cases)
     multi = [i for i, c in enumerate(cases) if len(c["files"]) > 1]
     distinct = len({vlib.sha(fulls[i]["files"]) for i in multi if (i + 1) not in rejects})
@@ -417,32 +651,43 @@ def run(ctx):
            [i for i in multi if cases[i]["tree"] == "B" and cases[i]["prog"] == "shadow"
             and any(e["g"] == "geometry/math.sy" and e["st"] == "useas" for e in cases[i]["edges"])][:1]
     ev.set(states=states, transitions=transitions,
-           traces_validated_against_impl=len(recs) + len(drecs), programs=len(recs) + ntwins + len(drecs),
-           evaluations=len(recs) + ntwins + len(drecs),
-           distinct_nontrivial=distinct, configurations=len(cases), placements=nplace, negative_twins=ntwins,
+           traces_validated_against_impl=len(recs) + len(drecs) + len(L["recs"]), programs=len(recs) + ntwins + len(drecs) + len(L["recs"]),
+           evaluations=len(recs) + ntwins + len(drecs) + len(L["recs"]),
+           distinct_nontrivial=distinct + len({vlib.sha(L["fulls"][i]["files"]) for i in l_ok if L["cases"][i]["accepted"]}),
+           configurations=len(cases) + len(L["cases"]), placements=nplace, negative_twins=ntwins,
+           layers={"primaries": L["info"]["primaries"], "variants_per_primary": L["nv"], "configurations": len(L["cases"]),
+                   "accepted_by_specification": sum(1 for c in L["cases"] if c["accepted"]),
+                   "rejected_by_specification": sum(1 for c in L["cases"] if not c["accepted"]),
+                   "rejected_records": len(L["rejects"]), "tree": L["info"]["tree"]},
            variants_per_placement=nv,
            base_programs={"%s/%s" % (p["tree"], p["name"]): {"expected_prints": p["prints"], "status": p["status"],
                                                             "placements": p["nplaces"]} for p in progs_all},
            trees={m: per_model[m]["progs"][0]["tree"] for m in per_model},
-           exercised=dict(cnt, **dcnt), rejected_records=len(rejects) + len(drej),
+           exercised=dict(dict(cnt, **dcnt), **L["cnt"]), rejected_records=len(rejects) + len(drej) + len(L["rejects"]),
            disk={"configurations": ndisk, "records": len(drecs), "spellings": per_model["A"]["progs"][0]["spellings"],
                  "rejected": len(drej)}, tlc_emit_wall_s=round(t_emit, 1), tlc_validate_wall_s=round(t_val, 1),
-           spec_invariants=["PathsOK", "ProgramsOK", "ConfigOK = UniqueNames /\\ RefsResolve /\\ NotImportedInvisible /\\ LoadOnce /\\ ImportsExist"],
-           negative_controls_rejected=n_a + n_b + n_dctl,
+           spec_invariants=["PathsOK", "ProgramsOK", "ConfigOK = UniqueNames /\\ RefsResolve /\\ NotImportedInvisible /\\ LoadOnce /\\ ImportsExist",
+                            "ConfigOKL = LoadOnceL /\\ UniqueNamesL /\\ RefsResolveL /\\ RejectedIffLate"],
+           negative_controls_rejected=n_a + n_b + n_dctl + L["controls"],
            negative_controls={"corrupted_observations_rejected": n_a, "stub_visible_dropped_imports_rejected": n_b,
-                              "corrupted_disk_observations_rejected": n_dctl},
+                              "corrupted_disk_observations_rejected": n_dctl, "corrupted_layers_observations_rejected": L["controls"]},
            exhaustive=(tier == "thorough"),
            exhaustive_scope="all placements of every base program's globals over each 6-file tree (<= 3 files besides main.sy); "
-                            "thorough: 8 of the 64 variants per placement, quick: 1 (seed-dependent)",
+                            "thorough: 8 of the 64 variants per placement, quick: 1 (seed-dependent); family L: all 1106 applicable primaries "
+                            "(chain length x consumer x last hop x who imports engine x extra imports of main x order of main's imports), "
+                            "thorough 16 of 64 variants each, quick 2",
            rule="configuration = tree (A: siblings / sub-folders / two exports.sy; B: std module names as file name, folder names and "
                 "exports folder) x base program (A: 4, B: 2) x placement of its 3-4 non-start globals in the tree (all %d) x variant "
                 "(style offset and stride over use / use-as / from / from-as per cross-file reference, namespace chains of depth 2 and 3, "
                 "relative or rooted or folder or bare-/ path, back-imports forming cycles, same-named decoys), index-addressed by "
                 "SyltModules!Derive; a configuration is non-trivial when it has >= 2 files and was accepted and conformed; "
-                "distinct = distinct rendered file sets" % nplace,
+                "distinct = distinct rendered file sets; family L (SyltLayers!DeriveL, address (n, w)): chain of `from` imports of "
+                "length 1..3 through exports.sy files x consumer x last hop from / namespace x importer of engine.sy x order of the "
+                "main file's imports x variant (aliases, printing initialisers, own start functions, extra back imports)" % nplace,
            samples=[sample_of(cases[i], fulls[i]) for i in pick] +
                    [dict(sample_of(dcases[j], dfulls[j]), main_file_given_as=dfulls[j]["arg"], cwd=dfulls[j]["cwd"],
-                         paths_asked_of_the_reader=dfulls[j]["asked"]) for j in (0, len(dcases) // 2)],
+                         paths_asked_of_the_reader=dfulls[j]["asked"]) for j in (0, len(dcases) // 2)] +
+                   [sample_l(L["cases"][i], L["fulls"][i]) for i in l_pick],
            known_findings_hit=verdicts.known_hits)
     ev.assume("SyltSem (TLA+) is the reference for what a base program does; minilua stands in for Lua 5.3",
               "the documented mapping: path relative to the importing file, leading / = directory of the file being run, trailing / = "
@@ -450,8 +695,12 @@ def run(ctx):
               "a.b.x is followed left to right through the namespaces each file itself introduces (tests/import)",
               "a path text of two or more components names a project file whatever its components are called; one-component texts that "
               "are std module names are never written (whether a project file shadows the std module is not documented)",
-              "out of the universe: from-importing a name the other file only imported, a.x where a only from-imported x (re-export), "
-              "`use /` without alias, path texts with a .sy suffix",
+              "out of the universe: `use /` without alias, path texts with a .sy suffix; names a file only imported (handed on by "
+              "`from` or through its namespace) occur in family L only",
+              "family L, as built and documented by tests/import/faulty_from_circular.sy: module order = main file first, then "
+              "depth-first with the LAST import of a file first; `from p use n` finds a name p's file only imported iff that file "
+              "comes earlier in the module order, otherwise the program is rejected; initialisers on which nothing depends run in "
+              "module order, then text order; the entry point is the start of the file being run",
               "the project root is the directory containing the file being run, however that file is spelled; on disk a read is "
               "attributed to the canonical file, so two spellings of one file count as two reads of it",
               "import statements are written at the start or at the end of a file; twins are judged by compile result only")
